@@ -4124,6 +4124,12 @@ class FlowIR(object):
                 'isRepeat': str_to_bool,
                 # VV: when maxRestarts is None, the Engine/RepeatingEngine objects decides max number of restarts
                 'maxRestarts': optional_int,
+                'memoization': {
+                    'disable': {
+                        'strong': str_to_bool,
+                        'fuzzy': str_to_bool,
+                    },
+                },
                 'optimizer': {
                     'disable': str_to_bool,
                     'exploitChance': float,
